@@ -19,6 +19,9 @@ output for every other translated function is untouched.
                                                       ->  `n = E; T1 = n; ...; (Ti skipped) ...; Tk = n`.
  H4 module constants bound by `A, B, ... = range(k)` (top level, each name bound exactly once in the module,
     `range` not rebound)                              ->  their values, where the name is not a local.
+ H6 (classes with an abstract `backend` only) `a, b, ... = f(...)` (every target a plain name)
+                                                      ->  `_h<n> = f(...); a, b, ... = _h<n>` (`_h<n>` a fresh local): the
+    call's effect on the object happens before the unpacking can fail, as in Python.
  H5 `a = self.m` (a bound method of `self`; top-level statement of the method, `a` bound exactly once, every other
     occurrence of `a` is the function of a call textually after it)
                                                       ->  binding removed, `a(args)` -> `self.m(args)`.
@@ -191,6 +194,30 @@ def prepass(fdef, tree, cls, spec, notes):
                 out.append(st)
         return out
     new.body = _map_blocks(new.body, unchain)
+
+    # H6 ------------------------------------------------------------------------------------------
+    counter = [0]
+
+    def untuple(stmts):
+        out = []
+        for st in stmts:
+            if isinstance(st, ast.Assign) and len(st.targets) == 1 and isinstance(st.targets[0], (ast.Tuple, ast.List)) \
+                    and all(isinstance(e, ast.Name) for e in st.targets[0].elts) and isinstance(st.value, ast.Call):
+                counter[0] += 1
+                tmp = '_h%d' % counter[0]
+                if tmp in scope:
+                    out.append(st)
+                    continue
+                notes.add('H6 unpacking of a call result')
+                out.append(ast.copy_location(ast.Assign(
+                    targets=[ast.copy_location(ast.Name(id=tmp, ctx=ast.Store()), st)], value=st.value), st))
+                out.append(ast.copy_location(ast.Assign(
+                    targets=st.targets, value=ast.copy_location(ast.Name(id=tmp, ctx=ast.Load()), st)), st))
+            else:
+                out.append(st)
+        return out
+    if cls.get('backend'):
+        new.body = _map_blocks(new.body, untuple)
 
     # H5 ------------------------------------------------------------------------------------------
     stores = _stores(new)
